@@ -1130,8 +1130,22 @@ func (r *Runner) notPrefixViol(oracle, what string, t *model.Coll) {
 			where = "child"
 		}
 		class += "/" + m.Kind + "/" + where
+		last, cross, hadMerge := r.classify(m.Path, m.Key)
+		if last != 0 {
+			class += "/last=" + string(last)
+		}
+		if hadMerge {
+			class += "/merge"
+		}
+		if cross {
+			class += "/cross"
+		}
 	}
-	r.viol(oracle, class, "", detail)
+	extra := ""
+	if r.Res.Counters["rounds.partial"] > 0 {
+		extra = "after-partial-compaction"
+	}
+	r.viol(oracle, class, extra, detail)
 }
 
 // afterRound runs after every completed persistence round.
